@@ -1102,6 +1102,12 @@ static int write_text(void *context, UChar *text, int32_t length, int fold, int 
 
             /* each folded segment, until the line is consumed */
             write_lines:
+            if ((*tok == 0) && (tok != text)) {
+                /* the value ends with a line terminator; its empty last line must be output, too */
+                if (u_fputc(UCHAR_NL, CONTEXT_UFILE(context)) != UCHAR_NL) {
+                    return CIF_ERROR;
+                }
+            }
             while (*tok != 0) {
                 int len = fold_line(tok, fold, target_length, FOLDING_WINDOW, prefix);
 
